@@ -172,7 +172,7 @@ def concrete_run(name, inputs):
       obj = eval(port, {'s': top})              # after lock_in_simulation the attribute IS the value object
       T = type(obj)
       obj.__imatmul__(T.from_bits(mk_bits_of(T.nbits)(v)) if is_struct(T) else v)
-    top.sim_eval_combinational()
+    settle(top)
     snaps.append({n: val(n) for n in sigs})
     top.sim_tick()
   text = open(fn + '.vcd').read()
@@ -190,6 +190,14 @@ def concrete_run(name, inputs):
   clk_obj = eval('s.clk', {'s': top})
   members = {n for n in sigs if eval(n, {'s': top}) is clk_obj}
   return check_dump(text, sigs, snaps, init_snap, eq, len(inputs), tw, members, lambda a, b: eval(a, {'s': top}) is eval(b, {'s': top}))
+
+
+def settle(top):
+  """bring the design to the state the dump will see: a pure RTL tick starts with the combinational pass; a design with
+  method ports / update_once blocks has none (its tick dumps first), so the state is taken as it is"""
+  try: top.sim_eval_combinational()
+  except NotImplementedError: pass
+  except NameError: pass          # the error path of sim_eval_combinational for non-RTL designs refers to an undefined name
 
 
 def is_struct(T):
@@ -241,7 +249,7 @@ def item(it):
     snaps = []
     for c in range(K):
       for port, w in _inputs_of(top): sim.drive(port, ivars[(c, port)])
-      top.sim_eval_combinational()
+      settle(top)
       snaps.append({n: val(n) for n in sigs})
       top.sim_tick()
     text = MemFile.files[fn + '.vcd'].text()
@@ -380,7 +388,7 @@ def main():
   chk.bounds = dict(designs=list(VD.DESIGNS), cycles=K, inputs='every top-level input symbolic in every cycle, from the power-on state', reset='held low')
   chk.outside = ['designs outside the corpus (wider signals only change the terms, more nets multiply the paths by 2 per net and cycle)', 'sim_reset() sequences',
                  'the rendering of digits itself: Bits.to_vcd_str / Bits.bin are replaced for symbolic payloads (the replay on the real code renders them)',
-                 'the printed text wave (print_textwave); only its per-cycle record is compared', 'designs with method ports']
+                 'the printed text wave (print_textwave); only its per-cycle record is compared', 'designs with method ports (update_once blocks are covered)']
   chk.assumptions = ['Bits.to_vcd_str and Bits.bin return a value-comparing marker string for symbolic payloads', 'the dump functions run unwrapped inside the tick', 'open() inside VcdGenerationPass returns an in-memory file (fork mode: one copy per path)']
   chk.finish(rule="per design and path (= which nets were re-dumped in which cycle): the file written by the real VcdGenerationPass is read by an independent VCD reader; "
                   "one obligation per (signal, cycle) 'dumped value == value held before the edge', plus initial values, widths, the set of declared signals, clock toggling, "
